@@ -252,7 +252,16 @@ fn probe_raw(model: &mut Model, ym: bool, mode: usize, ops: &[Op], mut rep: Opti
     let mut lines = vec![];
     let mut real: Vec<(usize, Option<VerifRawTick>)> = vec![];
     let mut shape = 0u8;
+    // the register file as the program wrote it, per op index (for the spec's adjudication)
+    let mut regs = [0u8; 14];
+    let mut regs_at: Vec<[u8; 14]> = vec![];
     for (i, op) in ops.iter().enumerate() {
+        if let Op::W(a, v) = op {
+            if (*a as usize) < 14 {
+                regs[*a as usize] = *v;
+            }
+        }
+        regs_at.push(regs);
         match op {
             Op::W(a, v) => {
                 if catch_unwind(AssertUnwindSafe(|| ay.write_register(*a, *v))).is_err() {
@@ -322,6 +331,37 @@ fn probe_raw(model: &mut Model, ym: bool, mode: usize, ops: &[Op], mut rep: Opti
         }
         let (el, er) = expected_lr(&tabs, outs);
         if v.left.to_bits() != el.to_bits() || v.right.to_bits() != er.to_bits() {
+            // the spec decides: what do the registers the program wrote define for the generator state the
+            // real chip itself reports (tone bits, noise bit, envelope level)?
+            let rg = regs_at[*i];
+            let mut souts = [0usize; 3];
+            for ch in 0..3 {
+                let a = model.ask(&format!(
+                    "spec idx {:x} {:x} {:x} {} {} {:x}",
+                    rg[7],
+                    rg[8 + ch],
+                    ch,
+                    v.tone[ch] & 1,
+                    v.noise & 1,
+                    v.envelope
+                ));
+                souts[ch] = usize::from_str_radix(a.trim(), 16).unwrap_or(usize::MAX);
+            }
+            let (sl, sr) = expected_lr(&tabs, souts);
+            if v.left.to_bits() != sl.to_bits() || v.right.to_bits() != sr.to_bits() {
+                let mut d = dis(
+                    Kind::SpecViolated,
+                    "C18/mixer.history",
+                    format!(
+                        "after op #{} the output is not what the registers define: R7={:02x} R8..R10={:02x},{:02x},{:02x}, tone bits {}{}{}, noise bit {}, envelope level {} define DAC indices {:?} (gate x (envelope level if bit 4 else volume))",
+                        i, rg[7], rg[8], rg[9], rg[10], v.tone[0] & 1, v.tone[1] & 1, v.tone[2] & 1, v.noise & 1, v.envelope, souts
+                    ),
+                    format!("{:e} {:e}", v.left, v.right),
+                    format!("{:e} {:e}", sl, sr),
+                );
+                d.at = Some(*i);
+                return Some(d);
+            }
             let mut d = dis(
                 Kind::ModelMismatch,
                 "C18/raw.mix",
@@ -974,6 +1014,68 @@ fn probe_port(model: &mut Model, m128: bool, alias: bool, ops: &[(char, u8)], mu
                 lines.push(format!("chip r {:x}", got));
                 reads.push((k, got, lines.len() - 1));
             }
+        }
+    }
+    // register numbers wrap modulo 16: the same history with every register number reduced modulo 16
+    // must make the same sound (not only the same read-back)
+    if ops.iter().any(|(op, v)| *op == 's' && *v > 15) {
+        let mut twin = emu(&c);
+        let res = catch_unwind(AssertUnwindSafe(|| {
+            for (op, v) in ops.iter() {
+                match op {
+                    's' => twin.verif_write_io(0xFFFD, *v & 0x0F),
+                    'w' => twin.verif_write_io(0xBFFD, *v),
+                    // the same port cycle, so that both machines stay at the same clock
+                    _ => {
+                        let _ = twin.verif_read_io(0xFFFD);
+                    }
+                }
+            }
+            let mut first = None;
+            for f in 0..2 {
+                let _ = e.emulate_frames(std::time::Duration::from_secs(1));
+                let _ = twin.emulate_frames(std::time::Duration::from_secs(1));
+                let mut k = 0usize;
+                loop {
+                    match (e.next_audio_sample(), twin.next_audio_sample()) {
+                        (Some(a), Some(b)) => {
+                            if (a.left.to_bits(), a.right.to_bits()) != (b.left.to_bits(), b.right.to_bits()) && first.is_none() {
+                                first = Some((f, k, a.left as f64, b.left as f64));
+                            }
+                        }
+                        (None, None) => break,
+                        _ => {
+                            if first.is_none() {
+                                first = Some((f, k, f64::NAN, f64::NAN));
+                            }
+                            break;
+                        }
+                    }
+                    k += 1;
+                }
+            }
+            first
+        }));
+        if let Some(rp) = rep.as_deref_mut() {
+            rp.eval();
+        }
+        match res {
+            Err(_) => return Some(dis(Kind::SpecViolated, "C18/panic", "frames after the port history panicked", "panic", "no panic")),
+            Ok(Some((f, k, a, b))) => {
+                return Some(dis(
+                    Kind::SpecViolated,
+                    "C18/port.alias-sound",
+                    format!(
+                        "{}K: the port history and the same history with register numbers reduced modulo 16 sound different (frame {}, sample {})",
+                        if m128 { 128 } else { 48 },
+                        f,
+                        k
+                    ),
+                    format!("{:e}", a),
+                    format!("{:e} (register numbers wrap modulo 16)", b),
+                ))
+            }
+            Ok(None) => {}
         }
     }
     let ans = model.ask_many(&lines);
